@@ -10,11 +10,44 @@ import (
 	"math"
 	"math/cmplx"
 	"math/rand"
+	"time"
 
 	"github.com/Trisia/randomness/fft"
 )
 
 func init() { register("fft", fftCmd) }
+
+// preHistory puts the transformer through an earlier call; for "keep" it returns a check to run after the judged call
+func preHistory(f fft.FFT, j fftJob) func() bool {
+	switch j.Pre {
+	case "refusedinv", "refusedfwd":
+		func() {
+			defer func() { recover() }()
+			bad := make([]complex128, f.N+1)
+			if j.Pre == "refusedinv" {
+				f.Inverse(bad)
+			} else {
+				f.Transform(bad)
+			}
+		}()
+	case "keep":
+		x0 := make([]complex128, f.N)
+		for i := range x0 {
+			x0[i] = complex(float64((i*7+3)%11)-5, float64((i*5+1)%7)-3)
+		}
+		y0 := f.Transform(x0)
+		cp := append([]complex128(nil), y0...)
+		return func() bool {
+			for i := range cp {
+				if y0[i] != cp[i] {
+					return false
+				}
+			}
+			return true
+		}
+	}
+	return func() bool { return true }
+}
 
 func ctorLen(j fftJob) int {
 	if j.Ctor > 0 {
@@ -32,6 +65,9 @@ type fftJob struct {
 	Len  int    `json:"len"`
 	Seed int64  `json:"seed"`
 	Ks   []int  `json:"ks"`
+	// Pre: what this transformer has been through before the judged call: "" | "refusedinv" (an Inverse on a slice of the
+	// wrong length, refused) | "refusedfwd" | "keep" (an earlier Transform whose returned spectrum the caller still holds)
+	Pre  string `json:"pre"`
 	Ctor int    `json:"ctor"` // > 0: the transformer is requested for this length (any length whose largest power of two below it is N)
 }
 
@@ -42,8 +78,35 @@ func fftCmd(job []byte, out *Out) error {
 	if err := json.Unmarshal(job, &js); err != nil {
 		return err
 	}
+	hangs := 0
 	for _, j := range js.Jobs {
 		res := map[string]interface{}{"id": j.ID, "ev": "fft", "kind": j.Kind, "N": j.N, "j": j.J, "len": j.Len}
+		if hangs >= 2 {
+			res["skipped"] = true
+			out.Emit(res)
+			continue
+		}
+		done := make(chan struct{})
+		j := j
+		go func() {
+			defer close(done)
+			runFFTJob(j, res)
+		}()
+		select {
+		case <-done:
+		case <-time.After(90 * time.Second):
+			// the call never came back (no fft operation on <= 2^27 points takes this long): reported, not waited for
+			hangs++
+			out.Emit(map[string]interface{}{"id": j.ID, "ev": "fft", "kind": j.Kind, "N": j.N, "j": j.J, "len": j.Len, "hang": true})
+			continue
+		}
+		out.Emit(res)
+	}
+	return nil
+}
+
+func runFFTJob(j fftJob, res map[string]interface{}) {
+	{
 		func() {
 			defer func() {
 				if p := recover(); p != nil {
@@ -82,6 +145,8 @@ func fftCmd(job []byte, out *Out) error {
 				if f.N != j.N {
 					panic(fmt.Sprintf("New(%d) built a transformer of length %d, expected %d", ctorLen(j), f.N, j.N))
 				}
+				keptOK := preHistory(f, j)
+				defer func() { res["kept"] = keptOK() }()
 				N := j.N
 				x := make([]complex128, N)
 				if j.Kind == "impulse" {
@@ -124,6 +189,8 @@ func fftCmd(job []byte, out *Out) error {
 				if f.N != j.N {
 					panic(fmt.Sprintf("New(%d) built a transformer of length %d, expected %d", ctorLen(j), f.N, j.N))
 				}
+				keptOK := preHistory(f, j)
+				defer func() { res["kept"] = keptOK() }()
 				rng := rand.New(rand.NewSource(j.Seed))
 				x := make([]complex128, j.N)
 				norm := 0.0
@@ -152,7 +219,5 @@ func fftCmd(job []byte, out *Out) error {
 				res["returned"] = true
 			}
 		}()
-		out.Emit(res)
 	}
-	return nil
 }
